@@ -5,7 +5,7 @@ from mc import core, det, domains, sse
 PROPERTY = 'C04'
 ENGINE = 'E1 bounded-exhaustive enumeration of (scheme, configuration point, profile, content variant); byte-level inspection of EDB and tokens'
 LEVEL = 'model_checking'
-DIRECTED_ADDITIONS = 'third setup by a brand-new scheme object, 16..256-posting setups, duplicate identifier inside a list, two deep / pickled copies of one scheme object'      # members added during the seeded-change campaign (DESIGN 7); counted under their own vacuity counters
+DIRECTED_ADDITIONS = 'three workers forked from a process that has built an index, third setup by a brand-new scheme object, 16..256-posting setups, duplicate identifier inside a list, two deep / pickled copies of one scheme object'      # members added during the seeded-change campaign (DESIGN 7); counted under their own vacuity counters
 
 CHUNK = 30
 
@@ -68,7 +68,53 @@ def case_list(name, label, cfg, tier):
 
 
 def units(tier, seed):
-    return sse.make_units(case_list, tier, CHUNK, grid_fn=grid)
+    us = sse.make_units(case_list, tier, CHUNK, grid_fn=grid)
+    for name in sse.SCHEMES:
+        us.append(('forked/%s' % name, {'kind': 'forked', 'scheme': name, 'label': 'base', 'cfg': sse.base_cfg(name)}))
+    return us
+
+
+def run_forked(r, seed, name, label, cfg):
+    """the same (K, DB) encrypted by three workers forked from a process that has already built an index (pre-fork server,
+    multiprocessing's fork start method): the ciphertext entries of the workers' indexes and of the parent's are pairwise disjoint"""
+    profile = [3, 2, 1]
+    case = {'scheme': name, 'label': label, 'cfg': cfg, 'profile': profile, 'kwlen': 6, 'relation': 'forked-workers'}
+    core.note_case(case)
+    db, cfg1, g = sse.build_db(seed, name, label, cfg, profile, 6, 'disjoint', awkward=False)
+    det.restore()
+    L = sse.loader(name)
+    r['states'] += 1
+    r['evaluations'] += 1
+    r['nontrivial'] += 1
+    try:
+        scheme = L.SSEScheme(cfg1)
+        key = scheme.KeyGen()
+        first = scheme.EDBSetup(key, db).serialize()
+    except Exception as e:
+        r.count("setup-raises (C01's subject, skipped here)")
+        return
+
+    def work(i):
+        return scheme.EDBSetup(key, db).serialize(), L.SSEScheme(copy.deepcopy(cfg1)).EDBSetup(key, db).serialize()
+    res = det.forked(3, work)
+    r['transitions'] += 7
+    if any(t != 'ok' for t, _ in res):
+        r.v(PROPERTY, name, 'raises', 'setup-in-forked-worker', case, 'setup works in a forked worker', repr([x for t, x in res if t != 'ok'][:1]))
+        return
+    sets = [set(sse.cipher_entries(name, cfg1, sse.unpickle_edb(first)))]
+    for _, (e_a, e_b) in res:
+        sets.append(set(sse.cipher_entries(name, cfg1, sse.unpickle_edb(e_a))))
+        sets.append(set(sse.cipher_entries(name, cfg1, sse.unpickle_edb(e_b))))
+    r.count('forked-worker-setups-compared', len(sets))
+    for i in range(len(sets)):
+        for j in range(i + 1, len(sets)):
+            common = sets[i] & sets[j]
+            if common:
+                r.v(PROPERTY, name, 'equal-ciphertexts', 'across-forked-workers', case, 'ciphertext entries of setups in different worker processes disjoint',
+                    'setups %d and %d: %d common entries of %d' % (i, j, len(common), len(sets[i])))
+                r.outcome('equal-ciphertexts-across-workers')
+                return
+    r.outcome('ok/forked-workers')
 
 
 def run_case(r, seed, name, label, cfg, profile, kwlen, relation):
@@ -168,6 +214,10 @@ def run_case(r, seed, name, label, cfg, profile, kwlen, relation):
 def run_unit(p, tier, seed):
     r = core.Result()
     name, label, cfg = p['scheme'], p['label'], p['cfg']
+    if p.get('kind') == 'forked':
+        run_forked(r, seed, name, label, cfg)
+        det.restore()
+        return r
     for profile, kwlen, relation in case_list(name, label, cfg, tier)[p['lo']:p['hi']]:
         run_case(r, seed, name, label, cfg, profile, kwlen, relation)
     det.restore()
@@ -176,5 +226,8 @@ def run_unit(p, tier, seed):
 
 def replay(case, seed):
     r = core.Result()
+    if case['relation'] == 'forked-workers':
+        run_forked(r, seed, case['scheme'], case['label'], case['cfg'])
+        return r['violations']
     run_case(r, seed, case['scheme'], case['label'], case['cfg'], case['profile'], case['kwlen'], case['relation'])
     return r['violations']
